@@ -61,6 +61,8 @@ def cases(tier, seed):
         out.append(('designed', 200, t, 0, ''))
     for fam in FAMS:
         out.append(('history', 0, fam, 0, ''))
+    # more than 100 000 rows with an even / odd structure: any striding or blocking of the rows changes tau
+    out.append(('huge', 150000, 0, 0, ''))
     # |tau| within 1e-5 of 1 but not 1: monotone data with one adjacent pair swapped (tau = +-(1 - 4/(n(n-1))))
     for n in (700, 1000, 2000):
         for sign in (1, -1):
@@ -191,6 +193,15 @@ def run_case(case):
             for fam in FAMS:
                 _check_fit(r, fam, X, case, f'n={n} pattern#{idx} {mapping}')
                 r.state((n, idx, mapping, fam))
+                if idx % 7 == 0:
+                    # the same table stored with dtype=object: same outcome (value or refusal) as for float64
+                    bc, be = _fit(fam, X.copy())
+                    oc, oe = _fit(fam, X.astype(object))
+                    r.tr(2)
+                    if type(be) is not type(oe) or (be is None and not (oc.theta == bc.theta or (oc.theta != oc.theta and bc.theta != bc.theta))):
+                        r.violation(f'C10:{fam}:dtype-dependence:object', f'{fam}.fit(n={n} pattern#{idx} {mapping}) stored as dtype=object: '
+                                    f'{"raised " + type(oe).__name__ if oe else oc.theta!r}, as float64: '
+                                    f'{"raised " + type(be).__name__ if be else bc.theta!r}', case=case, X=X)
                 if mapping == 'closed' and set(np.unique(X).tolist()) <= {0.0, 1.0}:
                     # a valid table whose values are all 0 or 1 may be stored with an integer or boolean dtype: same outcome
                     base_c, base_e = _fit(fam, X.copy())
@@ -214,6 +225,34 @@ def run_case(case):
         r.hit(f'n={n}', stop - start)
         r['sample'] = {'n': n, 'pattern_index': start, 'mapping': mapping,
                        'X': A.pattern_array(n, start, mapping).tolist()}
+        return r
+    if kind == 'huge':
+        from scipy import stats as _st
+        n = case[1]
+        u = (np.arange(n) + 0.5) / n
+        rk = (np.arange(n) * 7919) % n
+        v = np.where(np.arange(n) % 2 == 0, u, (rk + 0.5) / n)          # even rows comonotone, odd rows scrambled
+        X = np.column_stack([u, v])
+        tref = float(_st.kendalltau(u, v)[0])          # (O(n log n) reference: the quadratic one is out of reach at this size)
+        for fam in FAMS:
+            cop, exc = _fit(fam, X.copy())
+            r.tr()
+            r.ev()
+            r.nontriv()
+            r.state(('huge', fam))
+            if exc is not None:
+                r.violation(f'C10:{fam}:raises:{type(exc).__name__}', f'{fam}.fit({n} rows, tau={tref:.4f}) raised {exc}', case=case)
+            elif abs(float(cop.tau) - tref) > 1e-12:
+                r.violation(f'C10:{fam}:tau', f'{fam}.fit({n} rows): model.tau={cop.tau!r} but Kendall tau-b of all rows is {tref!r}',
+                            case=case)
+            Y = X.copy()
+            Y[n - 1, 1] = 1.5                              # an out-of-range value in the very last (odd) row
+            c2, e2 = _fit(fam, Y)
+            if not isinstance(e2, ValueError):
+                r.violation(f'C10:{fam}:no-refusal:out-of-range', f'{fam}.fit({n} rows with the value 1.5 in the last row): expected '
+                            f'ValueError, got {type(e2).__name__ if e2 else "a model"}', case=case)
+        r.hit('huge')
+        r['sample'] = {'n': n, 'tau': tref}
         return r
     if kind == 'near-monotone':
         _, n, sign, _, _ = case
